@@ -49,4 +49,27 @@ Step1(par, ch, tgt, S) == S \cup {par[x] : x \in {y \in S : par[y] # Nil}} \cup 
 RECURSIVE ClosureF(_, _, _, _, _)
 ClosureF(par, ch, tgt, S, fuel) == IF fuel = 0 THEN S ELSE ClosureF(par, ch, tgt, Step1(par, ch, tgt, S), fuel - 1)
 Closure(par, ch, tgt, n) == ClosureF(par, ch, tgt, {n}, Cardinality(DOMAIN par))
+
+\* A state for copies: [par, ch, tgt, cls, foo] functions over the live nodes.
+\* C19 as a predicate: `post` extends `pre` by an independent, consistent, isomorphic copy of the closure of n;
+\* bij maps each node of the closure to its copy; result is the node returned by the copy operation.
+Img(bij, x) == IF x = Nil THEN Nil ELSE bij[x]
+IsCopy(pre, post, n, bij, result) ==
+  LET R == Closure(pre.par, pre.ch, pre.tgt, n)
+      old == DOMAIN pre.par
+      new == DOMAIN post.par \ old IN
+  /\ DOMAIN bij = R
+  /\ \A x, y \in R: x # y => bij[x] # bij[y]
+  /\ {bij[x] : x \in R} = new                         \* shares no node object with the original; nothing else appears
+  /\ result = bij[n]                                  \* the result occupies n's position
+  /\ \A x \in R:                                      \* same shape, child order, classes, attributes, targets
+        /\ post.par[bij[x]] = Img(bij, pre.par[x])
+        /\ post.ch[bij[x]] = [i \in 1..Len(pre.ch[x]) |-> bij[pre.ch[x][i]]]
+        /\ post.tgt[bij[x]] = Img(bij, pre.tgt[x])
+        /\ post.cls[bij[x]] = pre.cls[x]
+        /\ post.foo[bij[x]] = pre.foo[x]
+  /\ \A x \in old:                                    \* the original is untouched
+        /\ post.par[x] = pre.par[x] /\ post.ch[x] = pre.ch[x] /\ post.tgt[x] = pre.tgt[x]
+        /\ post.cls[x] = pre.cls[x] /\ post.foo[x] = pre.foo[x]
+  /\ WellFormed(post.par, post.ch)                    \* C01 on the whole
 =============================================================================
